@@ -220,7 +220,17 @@ def loop_form(F, fn, A):
         L = SQ.VecEval(None, A).root_local(nt["args"][0])
         pre = [p_ for (p_, _l) in b.pred[head] if p_ not in loop]
         others = [bb_ for bb_, t_ in b.calls() if bb_ in loop and bb_ != nbb and any(SQ.VecEval(None, A).root_local(a_) == L for a_ in t_["args"])]
-        if L is not None and len(pre) == 1 and not others:
+        if len(src) > 3 and src[1] == "phi" and src[3]:
+            # a field of the receiver (`self.iter.next()`): its value on entry to the loop, provided that next() is the only thing
+            # in the loop that can change it (no store through the receiver, no other call that is handed the receiver)
+            from . import an as AN_
+            root = src[2]
+            stores = [1 for bb_ in loop for st_ in b.stmts(bb_) if st_["k"] == "assign" and st_["lhs"].get("l") == root]
+            stores += [1 for bb_, t_ in b.calls() if bb_ in loop and (t_.get("dest") or {}).get("l") == root]
+            handed = [bb_ for bb_, t_ in b.calls() if bb_ in loop and bb_ != nbb and any(SQ.VecEval(None, A).root_local(a_) == root for a_ in t_["args"])]
+            if not stores and not handed:
+                src = AN_.loop_entry_value(A, src, head, loop)
+        elif L is not None and len(pre) == 1 and not others:
             src = N(A.tb.read(L, (), (pre[0], len(b.stmts(pre[0])))))
     ex = CH.exits(A)
     somes = [e for e in ex if e.kind == "Some"]
